@@ -271,6 +271,11 @@ class SpanClient(F.Client):
                     self.read_aliases.add(n.targets[0].id)
                 if A.text(n.value) == "lines.append":
                     self.append_aliases.add(n.targets[0].id)
+        # the local that holds the joined statement text (tested for emptiness before the item is built), whatever it is called
+        self.track = set(type(self).track)
+        for n in A.body_nodes(f.node):
+            if isinstance(n, ast.Assign) and len(n.targets) == 1 and isinstance(n.targets[0], ast.Name) and ".join(lines)" in A.text(n.value):
+                self.track.add(n.targets[0].id)
         self.items = []   # (state, call node, which)
 
     def call_effect(self, call, st):
@@ -496,10 +501,31 @@ def rule_semicolon(m, rid):
     if not splits:
         r.error("_next: no .split(';') found (anchor vanished)")
         return r
+    # a second accepted way to tokenise: `mapped, unmap = string_replace_map(item.line, ...)` (the map of the item's own text)
+    tok_vars, unmap_vars = set(), set()
+    for n in A.body_nodes(nx.node):
+        if isinstance(n, ast.Assign) and isinstance(n.value, ast.Call) and A.text(n.value.func) == "string_replace_map" and n.value.args \
+                and A.text(n.value.args[0]) in ("item.line", "item.get_line()") and isinstance(n.targets[0], ast.Tuple) and len(n.targets[0].elts) == 2:
+            tok_vars.add(A.text(n.targets[0].elts[0]))
+            unmap_vars.add(A.text(n.targets[0].elts[1]))
+
+    local_defs = {}
+    for n in A.body_nodes(nx.node):
+        if isinstance(n, ast.Assign) and len(n.targets) == 1 and isinstance(n.targets[0], ast.Name):
+            local_defs.setdefault(n.targets[0].id, []).append(n.value)
+
+    def unmapped(e, depth=0):
+        t = A.text(e)
+        if "apply_map(" in t or (isinstance(e, ast.Call) and A.text(e.func) in unmap_vars):
+            return True
+        # a local that is only ever assigned unmapped text
+        if isinstance(e, ast.Name) and e.id in local_defs and depth < 2:
+            return all(unmapped(v, depth + 1) for v in local_defs[e.id])
+        return False
     for c in splits:
         r.instances += 1
         recv = A.text(c.func.value)
-        ok = recv.endswith("get_line()")
+        ok = recv.endswith("get_line()") or recv in tok_vars
         r.ob(ok, "_next: split operand `%s` is the tokenised line" % recv)
         if not ok:
             r.fail("_next|split-operand|%s" % recv, "_next splits `%s` at ';' rather than the tokenised line (item.get_line()): a ';' inside a "
@@ -622,9 +648,9 @@ def rule_semicolon(m, rid):
     r.instances += 1
     lines = [c for c in A.calls(nx.node) if A.text(c.func) == "Line"]
     copies = [c for c in A.calls(nx.node) if isinstance(c.func, ast.Attribute) and c.func.attr == "copy"]
-    ok = bool(lines or copies) and all("apply_map(" in A.text(c.args[0]) for c in lines) and \
+    ok = bool(lines or copies) and all(c.args and unmapped(c.args[0]) for c in lines) and \
         all(any(k.arg == "apply_map" and A.const(k.value) is True for k in c.keywords) or
-            (len(c.args) >= 2 and A.const(c.args[1]) is True) for c in copies)
+            (len(c.args) >= 2 and A.const(c.args[1]) is True) or (c.args and unmapped(c.args[0])) for c in copies)
     if ok:
         ok = all(len(c.args) >= 5 and A.text(c.args[1]).endswith(".span") and A.text(c.args[4]).endswith(".reader") for c in lines)
         if not ok:
